@@ -205,8 +205,9 @@ def c01_battery(binary):
         os.link(os.path.join(root, "x1.txt"), os.path.join(root, "x1_link.txt"))
         files["x1_link.txt"] = files["x1.txt"]
         import subprocess as sp
-        for tr in ("sed -e s/^/AAAAAAAA/", "cat", "head -c 1", "tr -d x", "dd count=2 bs=1", "cat $IN"):
-            for extra in ([], ["--cache"], ["--cache"], ["--threads", "8"]):
+        for tr in ("sed -e s/^/AAAAAAAA/", "base64", "cat", "head -c 1", "tr -d x", "dd count=2 bs=1", "cat $IN"):
+            hfs = [["--hash-fn", h] for h in ("blake3", "xxhash3", "sha256", "sha512", "sha3-256", "sha3-512", "metro")] if tr in ("sed -e s/^/AAAAAAAA/", "base64") else []
+            for extra in [[], ["--cache"], ["--cache"], ["--threads", "8"]] + hfs:
                 def out_of(data):
                     cmd = tr.replace("$IN", "/dev/stdin")
                     return sp.run(["sh", "-c", cmd], input=data, stdout=sp.PIPE, stderr=sp.DEVNULL).stdout
@@ -262,6 +263,14 @@ def _expected(paths, rf_over=None, rf_under=None, match_links=False):
     return sorted(out)
 
 
+def _stdin_groups(binary, roots, env):
+    r = subprocess.run([binary, "group", "-f", "json", "--stdin"], input=("\n".join(roots) + "\n").encode(), stdout=subprocess.PIPE, stderr=subprocess.PIPE, env=env, timeout=120)
+    try:
+        return json.loads(r.stdout.decode(errors="replace")).get("groups", [])
+    except Exception:   # noqa
+        return [{"files": ["<no report: %s>" % r.stderr.decode(errors="replace")[-100:]]}]
+
+
 def c03_battery(binary):
     """content classes of several sizes, hard links, repeated / overlapping roots; every reported partition is compared with the
     partition computed from the bytes and inode numbers"""
@@ -298,6 +307,13 @@ def c03_battery(binary):
             for extra in ([], ["--threads", "1"]):
                 check("repeated / overlapping roots with a hard-link set", roots, paths, env, extra)
         check("hard links, --match-links", [dd, dd], paths, env, ["--match-links"], match_links=True)
+        for roots in ([dd, dd], [dd, dd + "/."], [root, dd]):
+            got = sorted(sorted(g["files"]) for g in _stdin_groups(binary, roots, env))
+            flat = [f for g in got for f in g]
+            if len(flat) != len(set(flat)) or got != _expected(paths):
+                devs.append({"scenario": "repeated / overlapping roots given with --stdin", "roots": [os.path.basename(r) or r for r in roots],
+                             "problem": "a path is listed twice" if len(flat) != len(set(flat)) else "reported groups differ from the content classes",
+                             "listed": len(flat), "distinct": len(set(flat))})
     finally:
         shutil.rmtree(d, ignore_errors=True)
     # T2: classes around the stage thresholds, spread over directories
